@@ -78,6 +78,9 @@ def play_case(case_id: str, seed: int, force_variant=None, profile=None, max_ops
         else:
             tune.update(call=2.0, shove=6.0)
             tune['raise'] = 2.0
+    elif meta.get('director') == 'multirun':
+        tune.update(director='multirun', runs=rng.choice([3, 3, 4]), shove_street=rng.choice([1, 1, 2]),
+                    fold=0.02, p_bad=rng.choice([0.0, 0.03]), unknown=False)
     elif meta.get('director') == 'exact_deck':
         tune.update(fold=0.03, call=5.0, p_bad=rng.choice([0.0, 0.05]), unknown=False)
     meta['style'] = tune['style']
